@@ -75,15 +75,41 @@ def write_inputs(d, pil, rng):
     return ev
 
 
+def family_pil(rng):
+    """several families of isoforms that share peptides pairwise and have none of their own (rescue step: many small connected
+    components of unidentified groups, where set iteration order could leak into the result), plus unique targets and decoys"""
+    aas = "ACDEFGHILMNQSTVWY"
+    pil = []
+    nfam = rng.randint(3, 6)
+    for f in range(nfam):
+        iso = [f"F{f}I{i}" for i in range(rng.choice([2, 3, 3, 4]))]
+        rng.shuffle(iso)
+        pairs = [(a, b) for i, a in enumerate(iso) for b in iso[i + 1:]]
+        for j, (a, b) in enumerate(pairs):
+            ps = [a, b] if rng.random() < 0.5 else [b, a]
+            pil.append(["".join(rng.choice(aas) for _ in range(7)) + "K", gens.fr(rng.choice([0.001, 0.004, 0.02])), ps])
+        if len(iso) >= 3 and rng.random() < 0.5:
+            pil.append(["".join(rng.choice(aas) for _ in range(7)) + "R", gens.fr(0.003), list(iso[:3])])
+    for u in range(rng.randint(2, 5)):
+        pil.append(["".join(rng.choice(aas) for _ in range(6)) + "UK", gens.fr(rng.choice([0.0005, 0.002, 0.03])), [f"U{u}"]])
+    for u in range(rng.randint(1, 3)):
+        pil.append(["".join(rng.choice(aas) for _ in range(6)) + "DK", gens.fr(rng.choice([0.01, 0.2])), [f"REV__U{u}"]])
+    rng.shuffle(pil)
+    return pil
+
+
 def cli_hash_seeds(r, n_inputs, seeds):
     """the CLI on generated files under several PYTHONHASHSEED values: output bytes must be identical"""
     n_runs = 0
     env_base = dict(os.environ)
     for k in range(n_inputs):
-        pil = gen_pil(r.rng, max_prot=7, max_pep=12)
-        # make sure a ranking exists: two proteins get a peptide of their own
-        pil.append(["UNIQUEAK", gens.fr(0.002), [pil[0][2][0]]])
-        pil.append(["UNIQUEBK", gens.fr(0.03), [pil[-2][2][-1]]])
+        if k % 3 == 0:
+            pil = family_pil(r.rng)
+        else:
+            pil = gen_pil(r.rng, max_prot=7, max_pep=12)
+            # make sure a ranking exists: two proteins get a peptide of their own
+            pil.append(["UNIQUEAK", gens.fr(0.002), [pil[0][2][0]]])
+            pil.append(["UNIQUEBK", gens.fr(0.03), [pil[-2][2][-1]]])
         method = r.rng.choice(["picked_protein_group_mq_input_no_remap"])
         d = tempfile.mkdtemp(prefix="c07_", dir=core.scratch())
         ev = write_inputs(d, pil, r.rng)
@@ -132,7 +158,7 @@ def run(r: core.Runner):
     s.methods = None
     r.run_suite(s)
     nh = histories(r, core.tier_n(r.tier, 25, 600))
-    nc = cli_hash_seeds(r, core.tier_n(r.tier, 4, 60), [0, 1, 2, 3] if r.tier != "thorough" else [0, 1, 2, 3, 4, 5, 6, 7])
+    nc = cli_hash_seeds(r, core.tier_n(r.tier, 6, 60), [0, 1, 2, 3] if r.tier != "thorough" else [0, 1, 2, 3, 4, 5, 6, 7])
     r.traces = nh + nc
     r.extra["history_calls_compared_with_fresh"] = nh
     r.extra["cli_runs_under_hash_seeds"] = nc
